@@ -75,6 +75,51 @@ theorem leaks_monotone (env : Env) (fuel : Nat) (c : Cls) (st : St) :
     leaks st.log ≤ leaks (run env fuel c st).2.log :=
   (run_rel (logExt_ok env) fuel c st).leaks_le
 
+/-- the frames that were open when a class is called are still the bottom of the chain
+afterwards — for every outcome, leak or not (nothing ever exits a scope it did not enter) -/
+theorem entry_scopes_stay_open (env : Env) (fuel : Nat) (c : Cls) (st : St) :
+    ∃ extra, (run env fuel c st).2.sym.chain = extra ++ st.sym.chain :=
+  run_rel (sufR_ok env) fuel c st
+
+/-- C09 for the repaired `Program.__new__` (`programRollback`, derived from the live code):
+WHATEVER exception ends `Program(reader)` — `FortranSyntaxError`, the `sys.exit` of
+`reader.error`, an internal error — the scope that was current at entry is current again (the
+whole chain of open tables is the one at entry) and every remaining top-level table already
+existed at entry: a failed parse leaves no table and no open scope of its own behind.
+No boundary hypothesis.  (Pinned variant: `sysexit_witness`, `internal_syntax_leaks_witness`.) -/
+theorem program_failure_rolls_back (env : Env) (fuel : Nat) (c unit main0 : Cls) (subs : List Cls)
+    (st st' : St) (e : Exc) (hk : env.tbl.kind c = .program unit main0 subs)
+    (hq : env.tbl.quirks.programRollback = true)
+    (h : run env (fuel + 1) c st = (.raise e, st')) :
+    st'.sym.chain = st.sym.chain ∧ ∀ sc ∈ st'.sym.tops, sc.name ∈ st.sym.topNames := by
+  unfold run fresh at h
+  simp only [eval, hk, Prod.mk.injEq] at h
+  obtain ⟨ho, hs⟩ := h
+  generalize hfin : finish env (eval env fuel) c subs
+    (programMatch env (fresh (eval env fuel)) fuel unit main0 st) [c] = fr at ho hs
+  have hsuf : SufR st fr.2.2 := by
+    have := finish_rel (sufR_ok env) (eval_rel (sufR_ok env) fuel) c subs
+      (programMatch env (fresh (eval env fuel)) fuel unit main0 st) [c] st
+      (programMatch_rel (sufR_ok env) (fresh_rel (eval_rel (sufR_ok env) fuel)) fuel unit main0 st)
+    rw [hfin] at this; exact this
+  rw [ho] at hs
+  simp only [programExit, hq, if_true] at hs
+  subst hs
+  obtain ⟨extra, hex⟩ := hsuf
+  constructor
+  · have hl : st.sym.stack.length = st.sym.chain.length := by simp [SymTabs.chain]
+    show (fr.2.2.sym.rollback st.sym.topNames st.sym.stack.length).chain = st.sym.chain
+    rw [hl]; exact SymTabs.rollback_chain _ _ extra _ hex
+  · intro sc hsc
+    have : sc ∈ (fr.2.2.sym.rollback st.sym.topNames st.sym.stack.length).tops := hsc
+    unfold SymTabs.rollback at this
+    simp only at this
+    split at this
+    · simp only [List.mem_filter] at this
+      exact List.mem_of_elem_eq_true (by simpa using this.2)
+    · simp only [List.mem_filter] at this
+      exact List.mem_of_elem_eq_true (by simpa using this.2)
+
 /-! ## d. an unmatched statement is never read past -/
 
 /-- If no class matches item `g` (and it is not a comment), then whatever is called and
@@ -210,6 +255,39 @@ ever logged (compare `seq_drop_witness`) -/
 theorem seq_repair_never_drops (env : Env) (hq : env.tbl.quirks.seqRestores = true) (fuel : Nat)
     (c : Cls) (st : St) : SD (run env fuel c st).2 = SD st :=
   run_rel (seqR_ok env hq) fuel c st
+
+/-! ## C11 / C13 / C14: comments, directives, include lines and cpp lines -/
+
+/-- the sub-sequence of items of a given kind (e.g. the comment items, the cpp lines) -/
+def itemsOf (p : Item → Bool) (l : List Item) : List Item := l.filter p
+
+/-- `frontier_eq_consumed` specialised to any class of items: the comment items (p = "kind is
+comment"), the directive-form comments, the cpp lines, … that were consumed are exactly the
+corresponding leaves of the tree, in source order, each once -/
+theorem items_once_in_order (p : Item → Bool) (env : Env) (fuel : Nat) (c : Cls) (st st' : St)
+    (t : Tree) (h : run env fuel c st = (.tree t, st')) (hd : D st' = D st) :
+    itemsOf p st.stream.all = itemsOf p t.frontier ++ itemsOf p st'.stream.all := by
+  unfold itemsOf
+  rw [frontier_eq_consumed env fuel c st st' t h hd, List.filter_append]
+
+/-- for a successful `Program` of the repaired variant: EVERY comment (resp. cpp, include,
+directive) item of the input is a leaf of the tree, in source order, exactly once -/
+theorem comments_once_in_order (p : Item → Bool) (env : Env) (fuel : Nat) (c unit main0 : Cls)
+    (st st' : St) (t : Tree) (hk : env.tbl.kind c = .program unit main0 [])
+    (hq : env.tbl.quirks.programContinues = true)
+    (h : run env (fuel + 1) c st = (.tree t, st')) (hd : D st' = D st) :
+    itemsOf p st.stream.all = itemsOf p t.frontier := by
+  have h1 := items_once_in_order p env (fuel + 1) c st st' t h hd
+  have h2 := program_consumes_all env fuel c unit main0 st st' t hk h (Or.inl hq)
+  rw [h2] at h1
+  simpa [itemsOf] using h1
+
+/-- … and when nothing matches the stream, nothing of it is lost or duplicated either
+(back-tracking over comments, includes, directives and cpp lines is exact) -/
+theorem items_restored (p : Item → Bool) (env : Env) (fuel : Nat) (c : Cls) (st st' : St)
+    (h : run env fuel c st = (.none, st')) (hd : D st' = D st) :
+    itemsOf p st'.stream.all = itemsOf p st.stream.all := by
+  unfold itemsOf; rw [fail_restores env fuel c st st' h hd]
 
 /-! ## f. outcomes of `Program.__new__` -/
 
@@ -385,6 +463,15 @@ theorem sysexit_witness :
     outKind (res {} orcExit 0 2).1 = 5 ∧
     (res {} orcExit 0 2).2.sym.forest.length = 1 ∧
     (res {} orcExit 0 2).2.log.contains (.ghost .sysExit) = true := by
+  decide
+
+open W in
+/-- … repaired by `programRollback`: same input, outcome still `SystemExit`, but no table and
+no open scope are left -/
+theorem sysexit_rollback_witness :
+    outKind (res { programRollback := true } orcExit 0 2).1 = 5 ∧
+    (res { programRollback := true } orcExit 0 2).2.sym.forest.length = 0 ∧
+    (res { programRollback := true } orcExit 0 2).2.sym.chain = [] := by
   decide
 
 open W in
